@@ -762,3 +762,56 @@ def r1_9(run):
 
 
 RULES.append(("R1.9", r1_9))
+
+
+def _is_sorted_by_construction(t):
+    """K[argsort(K)], np.sort(K), K[lexsort([.., K])] (the last lexsort key is the primary one), np.unique(K)"""
+    from ..arrnf import base_of, key as tkey
+    t = base_of(t)
+    if not isinstance(t, tuple) or not t:
+        return False
+    if t[0] == "call" and t[1] in (("x", "numpy.sort"), ("x", "numpy.unique"), ("x", "numpy.arange")):
+        return True
+    if t[0] == "idx" and len(t[2]) == 1:
+        k, o = base_of(t[1]), t[2][0]
+        if o[0] == "call" and o[1] == ("x", "numpy.argsort") and o[2] and tkey(base_of(o[2][0])) == tkey(k):
+            return True
+        if o[0] == "call" and o[1] == ("x", "numpy.lexsort") and o[2] and o[2][0][0] in ("list", "tuple") and o[2][0][1] \
+                and tkey(base_of(o[2][0][1][-1])) == tkey(k):
+            return True
+    return False
+
+
+def r1_10(run):
+    """the per-junction sums of loads and branch flows come from a run-length group sum (_sum_by_group_sorted adds up *adjacent* equal
+    keys and returns one entry per run).  Called with keys that are not sorted it returns a junction once per run, and the stores that
+    follow (`pit[rows, LOAD] += sums`) keep only the last run of a repeated junction: consumption silently disappears from the node
+    equations.  Every call site hands it keys that are sorted by construction -- K[argsort(K)], K[lexsort([.., K])], np.sort / np.unique."""
+    from ..arrnf import ANF, show as tshow
+    ix = run.index
+    n = 0
+    target = "pandapipes.pf.internals_toolbox._sum_by_group_sorted"
+    for f in ix.all_functions():
+        if ".test." in f.module or not any(isinstance(x, ast.Name) and x.id == "_sum_by_group_sorted" or
+                                           isinstance(x, ast.Attribute) and x.attr == "_sum_by_group_sorted" for x in ast.walk(f.raw_node)):
+            continue
+        if f.qualname == target:
+            continue
+        try:
+            r = ANF(ix, f, strip=False).run()
+        except AnalysisError as ex:
+            raise AnalysisError("unrecognised shape: %s (calls _sum_by_group_sorted): %s" % (f.qualname, str(ex)[:120]))
+        for e in r.events:
+            if e.kind == "call" and e.term[1] == ("f", target):
+                n += 1
+                run.analysed(f)
+                keys = e.term[2][0] if e.term[2] else None
+                ok = keys is not None and _is_sorted_by_construction(keys)
+                run.ob("%s|sorted-group-sum-gets-sorted-keys" % f.short, ok,
+                       "the keys handed to the run-length group sum are sorted by construction", run.where(f, e.node),
+                       detail=None if ok else tshow(keys)[:160] if keys else "no positional key argument")
+    run.stat("calls_of_the_sorted_group_sum", n)
+    run.floor(2)
+
+
+RULES.append(("R1.10", r1_10))
